@@ -291,12 +291,37 @@ def typed_repr(v):
     return lit(v) if not isinstance(v, (set, frozenset)) else "S" + repr(sorted(map(lit, v)))
 
 
-def harmful_alias(t1, t2, kw):
+def hashables_acting(v, acc, hashed, keys_by_eq):
+    """the hashable sub-objects on which ==-aliasing ACTS in the unchanged code: everything below a list /
+    tuple / set (hashed through the shared memo table), and dict keys of directly compared dicts when
+    _diff_dict matches them by == (not when key cleaning renders numbers as text)"""
+    if isinstance(v, (list, tuple, set, frozenset)):
+        return hashables(v, acc)
+    if isinstance(v, dict):
+        if hashed:
+            return hashables(v, acc)
+        for k, x in v.items():
+            if keys_by_eq:
+                hashables(k, acc)
+            hashables_acting(x, acc, False, keys_by_eq)
+        return acc
+    if hashed:
+        hashables(v, acc)
+    return acc
+
+
+def harmful_alias(t1, t2, kw, acting=False):
     """two hashable sub-objects that are == (one key of the shared memo table) but
     whose own hashes under the options differ"""
     from deepdiff import DeepHash
     groups = {}
-    for x in hashables(t1, []) + hashables(t2, []):
+    if acting:
+        numclean = (kw.get("ignore_string_case") or kw.get("ignore_string_type_changes") or kw.get("ignore_numeric_type_changes")) and \
+            (kw.get("significant_digits") is not None or kw.get("ignore_numeric_type_changes"))
+        objs = hashables_acting(t1, [], False, not numclean) + hashables_acting(t2, [], False, not numclean)
+    else:
+        objs = hashables(t1, []) + hashables(t2, [])
+    for x in objs:
         try:
             groups.setdefault(x, {})[typed_repr(x)] = x
         except TypeError:
@@ -655,7 +680,10 @@ FEATURES = [
      lambda t1, t2, sp, c: any(isinstance(a, Decimal) for a in all_atoms2(t1, t2)),
      both(_dec_norm)),
     ("C12-K2-memo-alias",
-     lambda t1, t2, sp, c: harmful_alias(t1, t2, kwargs_of(sp)),
+     # the diff engine: aliasing in the positions where it acts, across both values; the hash engine:
+     # aliasing anywhere inside ONE value (each DeepHash call has its own table)
+     lambda t1, t2, sp, c: (harmful_alias(t1, t2, kwargs_of(sp), acting=True) or harmful_alias(t1, None, kwargs_of(sp))
+                            or harmful_alias(t2, None, kwargs_of(sp))),
      both(dealias)),
 ]
 
@@ -871,6 +899,61 @@ def _s(**kw):
     return mk(**kw)
 
 
+# one instant (2024-01-01 22:40:30 UTC) in five zones, and a second instant in two
+DTZ = [C11._dt(2024, 1, 1, 22, 40, 30, 0, 0), C11._dt(2024, 1, 2, 0, 40, 30, 0, 120), C11._dt(2024, 1, 2, 4, 10, 30, 0, 330),
+       C11._dt(2024, 1, 2, 4, 25, 30, 0, 345), C11._dt(2024, 6, 30, 23, 59, 59, 999999, -300), C11._dt(2024, 7, 1, 4, 59, 59, 999999, 0)]
+
+
+def gen_dt_zones(rng, sp):
+    """aware datetimes at the same instant in different zones (incl. +05:30 / +05:45), at the root, as dict values,
+    nested and as list items; occasionally a genuinely different instant"""
+    def dt():
+        return C11._dt(2024, rng.randint(1, 12), rng.randint(1, 28), rng.randint(0, 23), rng.randint(0, 59), rng.randint(0, 59),
+                       rng.choice([0, 0, 999999]), rng.choice([0, 0, 120, -300, 330, 345]))
+    shape = rng.choice(["root", "dict", "dict", "nested", "list", "mixed"])
+    if shape == "root":
+        v = dt()
+    elif shape == "dict":
+        v = {k: dt() for k in rng.sample(["k", "a", "b", 3], rng.randint(1, 3))}
+    elif shape == "nested":
+        v = {"k": {"q": dt(), "r": {"s": dt()}}, "n": rng.randint(0, 3)}
+    elif shape == "list":
+        v = [dt() for _ in range(rng.randint(1, 3))]
+    else:
+        v = {"k": dt(), "l": [dt(), 1], "m": (dt(),)}
+
+    def rezone(a):
+        if isinstance(a, datetime.datetime) and a.tzinfo is not None and rng.random() < 0.8:
+            b = a.astimezone(datetime.timezone(datetime.timedelta(minutes=rng.choice([0, 60, 120, -300, 330, 345, -480, 765]))))
+            if rng.random() < 0.1:
+                b = b + datetime.timedelta(seconds=rng.choice([1, 61, 3601]))
+            return b
+        return a
+    w = vmap(v, rezone, lambda k: k)
+    if rng.random() < 0.3:
+        w = C05.rebuild(w, rng)
+    return (v, w, []) if rng.random() < 0.5 else (w, v, [])
+
+
+def gen_key_flip(rng, sp):
+    """numeric dict keys equal in value but of another type (1 / 1.0 / Decimal(1)), both key orders"""
+    v = C11.gen_value(rng, rng.choice([1, 2, 2]), 3, True, True, False)
+    if not isinstance(v, dict):
+        v = {rng.choice([1, 2, 1.0, 0, 3.0]): v, rng.choice(["a", "A", "k1"]): rng.randint(0, 3)}
+
+    def fk(k):
+        if isinstance(k, bool) or rng.random() < 0.3:
+            return k
+        if isinstance(k, int):
+            return rng.choice([float(k), Decimal(k)])
+        if isinstance(k, float) and k == int(k):
+            return rng.choice([int(k), Decimal(int(k))])
+        return k
+    w = vmap(v, lambda a: a, fk)
+    w = C05.rebuild(w, rng)
+    return (v, w, []) if rng.random() < 0.5 else (w, v, [])
+
+
 # guard boundaries and the witnesses of the findings: (t1, t2, option set)
 FIXED = [
     ([True], [1], _s(numty=True)), (True, 1, _s(numty=True)), ({"a": True}, {"a": 1.0}, _s(numty=True)), ([True, 5], [1, 5], _s(numty=True)),
@@ -892,11 +975,19 @@ FIXED = [
     ({"a": 1, b"a": 2}, {"a": 1, b"a": 3}, _s(strty=True)), ({1: 1, 1.5: 2}, {1: 1, 1.5: 3}, _s(numty=True)), ({1.5: 1, 2.5: 2}, {1.5: 1, 2.5: 3}, _s(numty=True, sig=0)),
     ([1, 1, 2], [1, 2, 2], _s()), ([1.5, 2.5], [1.5], _s(sig=0)), (["a", "A"], ["a"], _s(case=True)), (("a", "A"), ("a", "a"), _s(case=True)),
     ({"a", "A"}, {"a"}, _s(case=True)), ({"a", b"a"}, {b"a"}, _s(strty=True)), (frozenset([3.5, 4]), frozenset([4]), _s(numty=True, sig=0)),
+    ({1: "x"}, {1.0: "x"}, _s(case=True, sig=2)), ({1.0: "x"}, {1: "x"}, _s(case=True, sig=2)), ({1: "x", "a": 2}, {"A": 2, 1.0: "x"}, _s(case=True, sig=1)),
+    ({2.0: [1], 3: "y"}, {2: [1], 3.0: "y"}, _s(strty=True, sig=0)), ({"k": {1: "x"}}, {"k": {1.0: "x"}}, _s(case=True, strty=True, sig=3)),
+    ({1: "x"}, {1.0: "x"}, _s(case=True)), ({1: "x"}, {1.0: "x"}, _s(sig=2)), ({1: "x"}, {1.0: "x"}, _s(case=True, sig=2, numty=True)),
     ([[1, 2, 3], [1.0, 2.0, 3.0]], [[1, 2, 3]], _s(numty=True)), ([{"a": [1, 2]}, {"A": [2.0, 1.0]}], [{"a": [1, 2]}], _s(numty=True, case=True)),
     ({"__a": 1, "b": 2}, {"__a": 2, "b": 2}, _s()), ({"__A": 1, "b": 2}, {"__a": 2, "B": 2}, _s(case=True)),
 ]
 
 FIXED_RICH = [
+    ({1: "x"}, {Decimal(1): "x"}, _s(case=True, sig=2)), ({Decimal(1): "x"}, {1.0: "x"}, _s(strty=True, sig=2)), ({1.0: "x", 2: 1}, {Decimal(1): "x", 2.0: 1}, _s(case=True, sig=0)),
+    (DTZ[0], DTZ[1], _s(trunc="day")), (DTZ[0], DTZ[2], _s(trunc="hour")), (DTZ[0], DTZ[3], _s(trunc="hour")), (DTZ[0], DTZ[1], _s(trunc="hour")),
+    ({"k": DTZ[0]}, {"k": DTZ[1]}, _s(trunc="day")), ({"k": DTZ[1]}, {"k": DTZ[2]}, _s(trunc="hour")), ({"k": {"q": DTZ[3]}}, {"k": {"q": DTZ[0]}}, _s(trunc="day", tz=330)),
+    ([DTZ[0]], [DTZ[1]], _s(trunc="day")), ([DTZ[0], 5], [5, DTZ[2]], _s(trunc="hour")), (DTZ[0], DTZ[1], _s()), (DTZ[0], DTZ[1], _s(trunc="minute")),
+    (DTZ[0], DTZ[1], _s(trunc="day", tz=120)), (DTZ[4], DTZ[5], _s(trunc="day")),
     (-0.0, 0.0, _s()), ([-0.0], [0.0], _s()), (-0.0, 0.0, _s(sig=2)), ({1.001: 1}, {1.002: 1}, _s(sig=2)), ({1.001: 1}, {1.002: 1}, _s(sig=2, numty=True)),
     ("é", "é".encode("utf-8"), _s(strty=True)), (["é"], ["é".encode("utf-8")], _s(strty=True)),
     ({"k": "é"}, {"k": "é".encode("utf-8")}, _s(strty=True)), (b"\xff", b"\xff", _s()), ([b"\xff"], [b"\xff"], _s()), (b"\xff", b"\xfe", _s(strty=True)),
@@ -1163,6 +1254,19 @@ def run(ctx):
         sp = dict(mods[i % len(mods)], enum=True)
         t1, t2, _log = gen_enum_cross(rng, sp)
         rich.append(("enumx", t1, t2, sp, rng.random() < 0.5, False))
+    dspecs = [mk(trunc="day"), mk(trunc="hour"), mk(trunc="hour", tz=330), mk(trunc="day", tz=-300), mk(trunc="minute"), mk(tz=345), mk(trunc="day", case=True)]
+    for i in range(400 if ctx.thorough else 70):
+        sp = dspecs[i % len(dspecs)]
+        t1, t2, _log = gen_dt_zones(rng, sp)
+        rich.append(("dtzone", t1, t2, sp, rng.random() < 0.5, False))
+    kspecs = [mk(case=True, sig=2), mk(strty=True, sig=1), mk(case=True, sig=0), mk(case=True, strty=True, sig=3), mk(case=True), mk(sig=2), mk(case=True, sig=2, numty=True)]
+    for i in range(400 if ctx.thorough else 70):
+        sp = kspecs[i % len(kspecs)]
+        try:
+            t1, t2, _log = gen_key_flip(rng, sp)
+        except Exception:  # noqa (merged keys)
+            continue
+        rich.append(("keyflip", t1, t2, sp, rng.random() < 0.5, False))
     for fam, t1, t2, sp, rep, _w in jobs[:3] + jobs[2 * len(FIXED):2 * len(FIXED) + 3]:
         ctx.sample({"family": fam, "t1": lit(t1), "t2": lit(t2), "options": name_of(sp), "report_repetition": rep})
     with mp.get_context("fork").Pool(core.NCPU) as pool:
